@@ -76,7 +76,7 @@ PROPS = {
                                 outs={'compAddBcast', 'compDeleteBcast', 'compUpdateBcast', 'subscribeResp', 'unsubscribeResp', 'error'})),
     'C14': dict(modules=['Hagall.Props.C14'], profiles=['custom', 'mixed'], n=(240, 4000), focus={'custom'},
                 topics=slice_of(['custom'])),
-    'C16': dict(modules=['Hagall.Props.C16'], profiles=['module', 'mixed'], n=(240, 4000), focus={'action', 'assetAdd'},
+    'C16': dict(modules=['Hagall.Props.C16', 'Hagall.Props.C01Conc'], profiles=['module', 'mixed'], n=(240, 4000), focus={'action', 'assetAdd'},
                 topics=slice_of(['action', 'assetAdd', 'join', 'entityDelete', 'disconnect'],
                                 outs={'vikjaState', 'odalState', 'actionResp', 'actionBcast', 'assetAddResp', 'assetAddBcast', 'error'},
                                 pred=lambda d: not (d.get('topic') in ('entityDelete', 'disconnect') and d['outs'] <= {'error'}))),
@@ -104,7 +104,7 @@ PROPS['C03'] = dict(modules=['Hagall.Props.C03'], profiles=['join', 'mixed', 'mo
                                     pred=lambda d: d.get('kind') != 'delivery' or d.get('conn') != d.get('actor')
                                     or bool(d['outs'] & {'sessionState', 'vikjaState', 'odalState'})))
 
-PROPS['C01'] = dict(modules=['Hagall.Props.C01'], profiles=['mixed', 'comp', 'module', 'pose', 'join'], n=(300, 5000), focus={'join', 'entityAdd', 'compAdd', 'action', 'assetAdd'},
+PROPS['C01'] = dict(modules=['Hagall.Props.C01', 'Hagall.Props.C01Conc'], profiles=['mixed', 'comp', 'module', 'pose', 'join'], n=(300, 5000), focus={'join', 'entityAdd', 'compAdd', 'action', 'assetAdd'},
                     extra=['conc_explore'],
                     gen_args=['-flags', '-'],
                     topics=slice_of(ALL_TOPICS + ['disconnect'], outs=RELAYS | {'sessionState', 'vikjaState', 'odalState', 'compAddBcast', 'compDeleteBcast', 'compUpdateBcast'}))
